@@ -251,7 +251,11 @@ func (r *run) setup() error {
 		if err != nil {
 			return err
 		}
-		e2 := &entry{Key: "second/obj2", Vid: vid, w: w, Hold: k2.hold, Def: kind.def, State: k2.name}
+		st2 := k2.name
+		if kind.def != "" {
+			st2 = kind.name + "+" + k2.name // also under the bucket default rule
+		}
+		e2 := &entry{Key: "second/obj2", Vid: vid, w: w, Hold: k2.hold, Def: kind.def, State: st2}
 		if k2.mode != "" {
 			e2.Ret = &retn{k2.mode, mustTime(dateSet)}
 		}
